@@ -278,10 +278,21 @@ def live_histories(tier, rng, n_quick=40, n_thorough=400):
         def fresh():
             c[0] += 1
             return 'L%d_%d' % (h, c[0])
+        ever = set()
         for j in range(rng.randrange(3, 10)):
             cs, ci = gens.state_ids(state)
+            ever |= set(x for x in cs if x)
+            gone = sorted(ever - set(cs))
             r = rng.random()
-            if r < 0.35:
+            if gone and cs and rng.random() < 0.25:
+                # a story whose ID was in the running order earlier (deleted, replaced away, dropped by a roReplace) comes
+                # back by an insert - and one that is there is inserted once more (a duplicate): whatever the object
+                # remembers about its IDs must follow the document
+                from docs import story_insert, element_action, ref
+                new = [gens.new_story(rng.choice(gone)), gens.new_story(rng.choice(cs))]
+                rng.shuffle(new)
+                d = story_insert(20 + j, rng.choice(cs), new) if rng.random() < 0.5 else element_action(20 + j, 'INSERT', [ref('storyID', rng.choice(cs))], [new])
+            elif r < 0.35:
                 d = gens.random_story_message(rng, cs, 20 + j, fresh)
             elif r < 0.6:
                 d = gens.random_item_message(rng, cs, ci, 20 + j, fresh)
